@@ -3,6 +3,7 @@
    Model/SourcesJson.v (both follow the code after the `fix:` commits listed in findings/C24.txt; the
    *_pinned variants follow the pinned code). *)
 From Octo Require Import SourcesCsv SourcesJson SourcesCsvProofs SourcesJsonProofs.
+From Octo Require Import Types SourcesJsonInfer SourcesJsonInferProofs.
 
 (* ---- CSV / TSV ------------------------------------------------------------------------------------------ *)
 
@@ -83,13 +84,40 @@ Theorem C24_json : forall fields obj, jrow_result_ok fields (exec_json_row true 
 Proof. exact exec_json_row_sound. Qed.
 Print Assumptions C24_json.
 
-(* Partial: that the rows of the preview themselves are never errors under the inferred schema (inference
-   and execution agree) is proved for CSV above; for JSON the inference of nested list/object types
-   (getOctoSQLType + the struct/list branches of TypeSum) is not modelled.  The statement that remains open:
-     forall rows fs r, infer_json true rows = Ok fs -> In r (firstn 100 rows) ->
-       exists vs, exec_json_row true (jschema fs) r = Ok vs.
-   It is checked by the engine's oracle on every generated file (flat and nested), and the flat inference
-   model is tied differentially (jinfer_tie). *)
+(* Partial — the exact gap.  Nested inference is modelled (Model/SourcesJsonInfer.v: getOctoSQLType, the Creator
+   loop with the missing-key NULLs, octosql.TypeSum = Model/Types.v tsum of C10) and tied differentially on
+   every generated file (jnested_tie: the model's schema equals the reported one; jnested_spec: every previewed
+   row is accepted by the execution model under the reported schema).  What is not proved is
+     C24_json_preview_rows_ok :
+       forall rows fs, infer_json_nested true rows = Ok fs ->
+         preview_rows_accepted (nschema fs) rows = true.
+   It needs: (a) get_value true (jty_of_ty (json_type v)) (Some v) is ok (a value fits its own type), and
+   (b) acceptance is monotone under TypeSum on the types inference produces:
+         get_value true (jty_of_ty a) x = Ok (_, true) -> tsum a b = Ok s -> get_value true (jty_of_ty s) x = Ok (_, true)
+       and the same for b — i.e. "TypeSum is an upper bound" for the acceptance relation of getOctoSQLValue (not
+       for Type.Is, which C10 proves only outside struct-shape mismatches, sum_upper_partial).  (b) is false on
+       /repo main for struct types with a repeated field name (the two theorems below), which the fix c73d0f6
+       (branch verif3-c23c24) removes; no other counterexample was found by the engine's search. *)
+Theorem C24_json_main_duplicate_key_refuted :
+  exists rows fs r, infer_json_nested false rows = Ok fs /\ In r (firstn 100 rows) /\
+    exists e, exec_json_row true (nschema fs) r = Err e.
+Proof. exact json_main_duplicate_key_refuted. Qed.
+Print Assumptions C24_json_main_duplicate_key_refuted.
+
+Theorem C24_json_main_duplicate_key_merge_refuted :
+  exists rows fs r, infer_json_nested false rows = Ok fs /\ In r (firstn 100 rows) /\
+    exists e, exec_json_row true (nschema fs) r = Err e.
+Proof. exact json_main_duplicate_key_merge_refuted. Qed.
+Print Assumptions C24_json_main_duplicate_key_merge_refuted.
+
+(* after the fix: {"o":{"k":1,"k":"s"}} and {"o":{"k":1}},{"o":{"k":"s","k":2}} are read *)
+Example C24_json_fixed_duplicate_keys :
+  let rows1 := [[(ko, JVObj [(kk, num1); (kk, str_s)])]] in
+  let rows2 := [[(ko, JVObj [(kk, num1)])]; [(ko, JVObj [(kk, str_s); (kk, num1)])]] in
+  (exists fs, infer_json_nested true rows1 = Ok fs /\ preview_rows_accepted (nschema fs) rows1 = true) /\
+  (exists fs, infer_json_nested true rows2 = Ok fs /\ preview_rows_accepted (nschema fs) rows2 = true).
+Proof. exact json_fixed_duplicate_keys. Qed.
+
 Example C24_json_fixed_missing_key :
   let rows := [[(k_a, JVNum one_bits)]; [(k_b, JVNum one_bits)]] in
   infer_json true rows = Ok [(k_a, FUnion [t_null; t_float]); (k_b, FUnion [t_null; t_float])] /\
